@@ -220,14 +220,40 @@ def instances(formulas, opts=None):
         if opts.get("unfold_first", False):
             first = sd.fn(z3.simplify(lo + 1), hi, *args)
             out.append(z3.Implies(hi > lo, e == sd.body_at(lo, args) + first))
-    if opts.get("ext", True) and len(sig_apps) <= opts.get("ext_limit", 40):
-        for (sd1, e1), (sd2, e2) in itertools.combinations(sig_apps, 2):
+    groups = opts.get("_ext_groups")
+    if opts.get("ext", True) and groups is not None:
+        # local mode (opt-in, `ext_local`): pair two Σ-applications only when they occur in the same formula of the group
+        # list (the goal with its assumptions in the first round, afterwards each instance generated by the previous
+        # round) — the applications that an extensionality step at one Skolem index puts side by side
+        pairs = []
+        for grp in groups:
+            ga = []
+            for name, d in collect_apps(grp).items():
+                sd = sigma.BY_DECL.get(name)
+                if sd is not None:
+                    ga.extend((sd, e) for e in d.values())
+            if len(ga) <= opts.get("ext_limit", 40):
+                pairs.extend(itertools.combinations(ga, 2))
+    elif opts.get("ext", True) and len(sig_apps) <= opts.get("ext_limit", 40):
+        pairs = itertools.combinations(sig_apps, 2)
+    else:
+        pairs = []
+    if True:
+        done = opts.get("_ext_done")
+        for (sd1, e1), (sd2, e2) in pairs:
             if e1.sort() != e2.sort():
                 continue
+            if done is not None:
+                # one extensionality instance (one Skolem index) per pair of applications and saturation run
+                pk = (e1.get_id(), e2.get_id()) if e1.get_id() < e2.get_id() else (e2.get_id(), e1.get_id())
+                if pk in done:
+                    continue
             lo1, hi1, lo2, hi2 = e1.arg(0), e1.arg(1), e2.arg(0), e2.arg(1)
             if not (z3.simplify(lo1 - lo2).eq(z3.IntVal(0)) and z3.simplify(hi1 - hi2).eq(z3.IntVal(0))):
                 if not opts.get("ext_all", False):
                     continue
+            if done is not None:
+                done.add(pk)
             x = z3.Int(f"ext!{e1.get_id()}!{e2.get_id()}")
             a1 = [e1.arg(i) for i in range(2, e1.num_args())]
             a2 = [e2.arg(i) for i in range(2, e2.num_args())]
@@ -247,8 +273,13 @@ def saturate(formulas, rounds=2, opts=None):
     seen = set(f.get_id() for f in allf)
     added = []
     frontier = list(formulas)
+    ext_done = set()
+    last_new = None
     for r in range(rounds):
         o = dict(opts or {})
+        o["_ext_done"] = ext_done
+        if o.get("ext_local"):
+            o["_ext_groups"] = [list(formulas)] if last_new is None else [[f] for f in last_new]
         if r > 0:
             o["unfold"] = o.get("unfold_deep", False)
             o["unfold_first"] = False
@@ -259,6 +290,7 @@ def saturate(formulas, rounds=2, opts=None):
                 new.append(inst)
         if not new:
             break
+        last_new = new
         added.extend(new)
         allf.extend(new)
     return added
